@@ -31,6 +31,9 @@ pub fn run(outdir: &Path, tier: &str, seed: u64, shards: usize, replay: Option<S
         vec![serde_json::from_value(v["case"]["program"].clone()).unwrap()]
     } else {
         let mut ps = crate::c01dir::directed();
+        let extra = crate::c01dir::snake_case_types();
+        let nprog = nprog + extra.len();
+        ps.extend(extra);
         let mut tries = 0;
         while ps.len() < nprog && tries < nprog * 4 {
             tries += 1;
